@@ -45,6 +45,9 @@ void abtv_clock_tick_ns(int64_t ns);   /* increment applied by each clock_gettim
 void abtv_atomic_begin(void);
 void abtv_atomic_end(void);
 
+/* hold the caller back at one of its next `maxhooks` hooked operations for `steps` steps */
+void abtv_stall_within(int maxhooks, int steps);
+
 /* a scheduling point requested by the driver (e.g. inside work-unit bodies) */
 void abtv_point(void);
 /* mark the calling actor as not progressing (driver-level polling loop) */
